@@ -160,6 +160,18 @@ CHECKS["C10"] = dict(
     note="Trusted: TLC. Accept/reject correctness of the same inputs is decided by C08/C09/C11/C12; here only class and termination.",
     technique="TLC trace validation (C->S) of outcome classes over a mutation corpus",
     ref="3/C10")
+CHECKS["C04"] = dict(
+    text="RFC6979.tla is the section 3.2/3.6 machine over an HMAC oracle: qlen, rolen, int2octets, bits2octets, the key and message "
+         "of every HMAC call (steps d-g, the H2/H3 loop, K/V update on rejection, retry skipping) and the returned candidate are "
+         "recomputed by TLC on byte sequences at full size from the recorded oracle answers. TLC checks the conversions against "
+         "native integers on the model; every recorded generate_k call (orders 2..40 and around 2^7/2^8/2^16 with 4/5-byte hashes so "
+         "that rejected candidates are frequent; 17 curve orders + 160/161/521/600-bit and non-prime orders; digests shorter/equal/"
+         "longer; hashes 4..100 bytes; retry_gen 0..3; extra entropy) is trace-validated; deterministic signing on T23/T43 is "
+         "validated with ECDSA.tla (retry_gen 0,1,2 in order, earlier nonces give RSZero, signature standard for the final nonce, "
+         "repeatable).",
+    note="Trusted: TLC, stdlib hmac/hashlib (oracle answers recorded by a shim placed in ecdsa.rfc6979's namespace at run time).",
+    technique="TLC trace validation (C->S) of recorded HMAC-call traces against the RFC 6979 state machine",
+    ref="3/C04")
 NOT_YET = {}
 
 
